@@ -118,6 +118,26 @@ def one(ctx, pts, K, E, t, family):
             ctx.fail('predicate', 'rmse=sqrt(mse)', f'evaluation.rmse[{s}]', case, sd)
         if abs(mae - rmae) > tol(rmae) or abs(mse - rmse_) > tol(rmse_):
             ctx.fail('predicate', 'error=mean-per-coordinate-NN-matching-from-strategy-side', f'evaluation.mae/mse[{s}]', case, sd)
+        # Layer-N model of the matching errors (exact Q) vs the float results
+        out = d.call('match_err', [s, core.rats(E[:, 0]), core.rats(E[:, 1]), core.rats(kp[:, 0]), core.rats(kp[:, 1])])
+        ctx.corr_checked += 1
+        from fractions import Fraction as F
+        qmae, qmse, qrp = F(out[0]), F(out[1]), F(out[2])
+        # equidistant nearest neighbours: np.linalg.norm may order exact ties either way (relational there)
+        def has_tie():
+            for p_ in a:
+                d2 = sorted(sum((F(float(u)) - F(float(v))) ** 2 for u, v in zip(q_, p_)) for q_ in b)
+                if len(d2) > 1 and d2[1] - d2[0] <= F(1, 10 ** 12) * d2[1]:
+                    return True
+            return False
+        if abs(F(mae) - qmae) > F(1, 10 ** 9) * (abs(qmae) + 1) or abs(F(mse) - qmse) > F(1, 10 ** 9) * (abs(qmse) + 1):
+            if has_tie():
+                ctx.tag('tie:(near-)equidistant-nearest-neighbours(relational)')
+                continue
+            ctx.fail('correspondence', 'maeQ/mseQ2 (exact nearest-neighbour matching) vs float', f'evaluation.mae/mse[{s}]', case, dict(sd, model_mae=float(qmae), model_mse=float(qmse)))
+        if np.all(a[:, 0] > 2.0 ** -10) and np.all(a[:, 1] > 2.0 ** -10) and math.isfinite(rmspe):
+            if abs(F(rmspe * rmspe) - qrp) > F(1, 10 ** 9) * (abs(qrp) + 1):
+                ctx.fail('correspondence', 'rmspeSqQ vs float', f'evaluation.rmspe[{s}]', case, dict(sd, model=float(qrp)))
         if len(E) == len(kp) and np.array_equal(E, kp):
             if mae != 0 or mse != 0 or rmse != 0 or rmspe != 0:
                 ctx.fail('predicate', 'errors-vanish-when-E-is-knee-points', f'evaluation[{s}]', case, sd)
